@@ -347,6 +347,7 @@ def not_driven(res, tier, seed, workdir):
         return dict(error="no gcov data")
     nd = sorted(m for m in members if counts.get(m, 0) == 0 and m not in EXCLUDED_MEMBERS)
     return dict(method="gcov execution counts of the same workload (seed %d, quick slice + all object-free operations) against `nm -C` const/static members of the property's classes" % seed,
+                note="members = every out-of-line or TU-instantiated const member / static member function that `nm -C` finds in the -O0 gcov build of the library (inline members never instantiated anywhere are invisible to nm)",
                 members_considered=len(members), driven=len([m for m in members if counts.get(m, 0) > 0]), not_driven=nd,
                 excluded={k: v for k, v in EXCLUDED_MEMBERS.items()}, wall_s=round(time.time() - t0, 1))
 
@@ -361,11 +362,11 @@ def helgrind_pass(res, seed, workdir):
     nsh = 8
     for sh in range(nsh):
         log = os.path.join(wd, "hg%d.log" % sh)
-        cmd = ["valgrind", "--tool=helgrind", "--history-level=approx", "--error-exitcode=0", "--log-file=" + log, "-q",
+        cmd = ["valgrind", "--tool=helgrind", "--history-level=full", "--error-exitcode=0", "--log-file=" + log, "-q",
                exe, "--seed", str(seed), "--tier", "quick", "--scale", "0.15", "--shard", str(sh), "--nshards", str(nsh), "--limit-s", "3000",
                "--out", os.path.join(wd, "hg%d.jsonl" % sh)]
-        procs.append((subprocess.Popen(cmd, stdout=subprocess.DEVNULL, stderr=subprocess.DEVNULL, cwd=wd), log))
-    nrep, keys, bugs = 0, {}, 0
+        procs.append((subprocess.Popen(cmd, stdout=subprocess.DEVNULL, stderr=subprocess.DEVNULL, cwd=wd, env=dict(os.environ, VERIF_C14_PRETOUCH="1")), log))
+    nrep, keys, bugs, nstatic = 0, {}, 0, 0
     for p, log in procs:
         try:
             p.wait(timeout=3600)
@@ -375,36 +376,39 @@ def helgrind_pass(res, seed, workdir):
             txt = open(log, errors="replace").read()
         except OSError:
             continue
-        for blk in re.split(r"\n==\d+== ?\n", txt):
+        txt = re.sub(r"(?m)^==\d+== ?", "", txt)
+        for blk in re.split(r"(?m)^-{20,}\s*$", txt):
             if "Possible data race" not in blk:
                 continue
             nrep += 1
-            # the two stacks: "at 0x...: func (file:line)" / "by 0x...:"; conflicting access after "This conflicts with a previous"
+            am = re.search(r"(?m)^\s*Address 0x[0-9a-fA-F]+ is (.*)$", blk)
+            where = am.group(1) if am else "?"
+            if "inside a block of size" not in where and "stack" not in where:
+                # function-local statics (C++11 guards are invisible to helgrind) and libgcc/libstdc++ internals:
+                # helgrind cannot judge these; ThreadSanitizer (which models the guards) does, in the first-touch trials
+                nstatic += 1
+                continue
             parts = blk.split("This conflicts with a previous")
             sides = []
             for part in parts[:2]:
                 fn = None
-                for m in re.finditer(r"(?:at|by) 0x[0-9A-F]+: (.+?) \((?:in )?[^()]*\)\s*$", part, re.M):
+                for m in re.finditer(r"(?m)^\s+(?:at|by) 0x[0-9A-F]+: (.+) \((?:in )?[^()]*\)\s*$", part):
                     f = _strip_groups(_strip_groups(m.group(1), "<", ">"), "(", ")").replace(" const", "")
                     tok = [t for t in f.split() if t.startswith("GeographicLib::") or t.startswith("kissfft")]
                     if tok:
                         fn = tok[0].replace("GeographicLib::", ""); break
                 sides.append(fn)
-            if len(sides) < 2:
-                sides.append("<no-second-stack>")
-            if not any(s and not s.startswith("<") for s in sides):
+            while len(sides) < 2:
+                sides.append(None)
+            if not any(sides):
                 bugs += 1
                 continue
-            # the documented Intersect counters cannot be annotated for helgrind: skip reports inside Intersect's counting functions
-            if all(s and s.startswith("Intersect::") for s in sides):
-                keys["(excluded) Intersect counters"] = keys.get("(excluded) Intersect counters", 0) + 1
-                continue
-            key = "helgrind:race@" + "|".join(sorted(s or "<harness>" for s in sides))
+            key = "helgrind:race@" + "|".join(sorted(s or "<no-library-frame>" for s in sides))
             if key not in keys:
-                res.add_viol(dict(key=key, **{"class": "helgrind"}, run="C14.helgrind", section="trial", idx=0, seed=seed, flavour="o2",
-                                  harness="harness/C14.cpp", detail=dict(report=blk[:5000])))
+                _add_front(res, dict(key=key, **{"class": "helgrind"}, run="C14.helgrind", section="trial", idx=0, seed=seed, flavour="o2",
+                                     harness="harness/C14.cpp", detail=dict(address=where, report=blk[:5000])))
             keys[key] = keys.get(key, 0) + 1
-    return dict(reports=nrep, keys=keys, reports_without_library_frame=bugs, wall_s=round(time.time() - t0, 1))
+    return dict(reports=nrep, keys=keys, reports_on_static_storage_not_judged=nstatic, heap_reports_without_library_frame=bugs, wall_s=round(time.time() - t0, 1))
 
 
 def extra(res, tier, seed, workdir):
